@@ -18,6 +18,9 @@ TRUSTED = ["layout interpreter", "ISO/IEC 14496-12: track timelines start at 0 u
 
 def check(prog, run):
     run.rule("R1", "a track-start offset mechanism exists in the audio trak (edts/elst or a field depending on both first timestamps)")
+    run.rule("R2", "no drift: the stts/ctts run-length tables merge only exactly equal values, so each track's timeline is the exact sum of its per-sample deltas (C03.R2 gives the deltas)")
+    from . import c03
+    c03.rle_rule(prog, run, "R2")
     try:
         m = c01.Model(prog)
     except (AnchorMissing, L.Unanalysable) as e:
